@@ -108,8 +108,12 @@ def primitive_cases():
     return cases
 
 
-HEADER = ("From Coq Require Import QArith String List ZArith.\nFrom TT Require Import lib.PreludeX genX.Aggr genX.Mean proofs.C18_noraise.\n"
+HEADER = ("From Coq Require Import QArith String List ZArith.\nFrom TT Require Import lib.PreludeX genX.Aggr genX.Mean.\n"
           "Import ListNotations.\nOpen Scope Z_scope.\n"
+          "Definition pl_const (v : fl) : xv -> xv := fun x => match x with Raise e => Raise e | _ => Plain false v end.\n"
+          "Definition const_dist (v : fl) : dist xv := mk_dist (pl_const v) (pl_const v) (pl_const v) (pl_const v).\n"
+          "Definition const_family : dist_family xv := mk_family (fun _ => const_dist (FFin 1)) (fun _ => const_dist (FFin 1)) "
+          "(fun _ _ => const_dist (FFin 1)).\n"
           "Definition alook (k : string) (l : list (string * xv)) : xv := (fix f l := match l with [] => nraise | (k', v) :: t => "
           "if String.eqb k k' then v else f t end) l.\n"
           "Definition alook2 (k : string * string) (l : list (string * string * xv)) : xv := (fix f l := match l with [] => nraise | "
@@ -187,7 +191,7 @@ def agg_term(case):
 
 
 def correspondence(ctx):
-    ok, out, dt, failed = H.make(["genX/Mean.vo", "proofs/C18_noraise.vo"])
+    ok, out, dt, failed = H.make(["genX/Mean.vo"])
     if not ctx.oblige(ok, "correspondence", "build of genX/Mean.vo", out):
         return
     prim = primitive_cases()
@@ -280,9 +284,13 @@ def rand_data_case(rng):
         y = [rng.choice([1.0, 0.0, 2.5])] * n0 + [rng.choice([1.0, 2.0, 0.0])] * n1
     if rng.random() < 0.15:      # tiny control mean, ordinary treatment
         y = col(rng, "tinymean", n0) + col(rng, "rand", n1)
+    if rng.random() < 0.3:       # covariate an exact multiple / affine image of the metric in every variant, default options
+        y = col(rng, rng.choice(["rand", "pos", "ints"]), n)
+        a, b = rng.choice([(3, 0), (2, 1), (1, 0), (-2, 0), (0.5, 3)])
+        x = [a * v + b for v in y]
     return {"kind": "data", "n0": n0, "y": y, "d": d, "x": x, "e": e,
             "which": rng.choice(["mean", "meancov", "ratio", "ratiocov", "ratiocov1"]),
-            "alternative": rng.choice(["two-sided", "greater", "less"]), "equal_var": rng.random() < 0.5, "use_t": rng.random() < 0.5,
+            "alternative": rng.choice(["two-sided", "greater", "less"]), "equal_var": rng.random() < 0.35, "use_t": rng.random() < 0.65,
             "backend": rng.choice(B.KINDS)}
 
 
